@@ -9,6 +9,7 @@ import (
 	"github.com/gokrazy/rsync"
 	"github.com/gokrazy/rsync/internal/rsyncchecksum"
 	"github.com/gokrazy/rsync/internal/rsyncopts"
+	"github.com/gokrazy/rsync/internal/simhook"
 	"github.com/mmcloughlin/md4"
 )
 
@@ -38,6 +39,7 @@ func (st *Transfer) hashSearch(targets []target, tagTable map[uint16]int, head r
 	}
 
 	readSize := max(3*head.BlockLength, 256*1024)
+	readSize = simhook.ReadWindow(head.BlockLength, readSize)
 	ms := mapFile(f, fi.Size(), readSize, head.BlockLength)
 
 	if err := st.Conn.WriteInt32(fileIndex); err != nil {
